@@ -21,8 +21,8 @@ h) reads scan published segments only: the scan list must not contain in-flight 
    .idx), so a read sees half-written rows that carry real event ids and win the de-duplication against the intact copy in the passive buffer. The passive buffer is released only after publication
    (C03.c), so the in-flight merge adds nothing to completeness.
 """
-FLOOR = 14
-REQUIRED = ["C11.a", "C11.b", "C11.c", "C11.f", "C11.g", "C11.h", "C11.i", "C11.j", "C11/C01.g", "C11/C03.c", "C11/C05.b1", "C11/C05.b2", "C11/C05.d", "C11/C05.e"]
+FLOOR = 15
+REQUIRED = ["C11.a", "C11.b", "C11.c", "C11.f", "C11.g", "C11.h", "C11.i", "C11.j", "C11.k", "C11/C01.g", "C11/C03.c", "C11/C05.b1", "C11/C05.b2", "C11/C05.d", "C11/C05.e"]
 
 SEGMOD = re.compile(r"^(engine::core::(column|filter|read::catalog|time|zone|snapshot|write)::|shared::storage_header::)")
 WRITER_ROOTS = {"engine::core::write::flusher::Flusher::flush", "engine::core::compaction::multi_uid_compactor::MultiUidCompactor::run",
@@ -250,6 +250,39 @@ def run(ctx):
                 break
         return bad
     ctx.run("C11.j", "K7 PROV", "CompactionHandover::move_to_reclaim", "a retired segment leaves its published name in one rename", j_)
+
+    def k_(inst):
+        """`disappear whole` also means: only what the index retired disappears. The labels a hand-over takes out of the live list and
+        gives to the reclaimer are the ones ITS retirement drained - never labels read off the shard directory. A flush publishes in
+        two steps (write the directory, then take the flush lock and add the index line): a directory the index does not name yet may
+        be a flush waiting for that lock; reclaiming it leaves an index line without a directory."""
+        bad = []
+        b = F.fn("CompactionHandover::commit_batch")
+        oks = [(bb, v) for (bb, jx, v, dst) in b.aggregates("result::Result", "Ok") if dst == [0]]
+        if not oks:
+            raise AnchorMissing("Ok(drained) return of commit_batch")
+        W = set()
+        for bb, v in oks:
+            W |= wide_all(b, v["o"][0]) | deep_locals(b, v["o"][0], wide=True)
+        listing = []
+        for c in b.calls:
+            if c.cleanup or not re.search(r"SegmentIdLoader::(new|load)$|fs::read_dir$|ReadDir", c.nname):
+                continue
+            fl = {l for l, _ in b.flow_forward(c.dest)} if c.dest else set()
+            if fl & W or (c.dest and c.dest[0] in W):
+                listing.append(c)
+        # values pushed into the returned vector
+        for c in b.calls:
+            if not c.cleanup and re.search(r"Vec::(push|extend|append)$|Extend>::extend$", c.nname) and (b._origin_locals(c.args[0]) & W) and len(c.args) > 1:
+                for l_ in wide_all(b, c.args[1]) | b._origin_locals(c.args[1]):
+                    for x in b.origins({"c": [l_]}):
+                        if x[0] == "call" and re.search(r"SegmentIdLoader::load$|fs::read_dir$|DirEntry", x[1]):
+                            listing.append(b.call_at(x[2]))
+        inst.sites = [sp(b, bb) for bb, _ in oks] + ["directory listings feeding the reclaim set: %d" % len(listing)]
+        if listing:
+            bad.append(("reclaim-set-from-directory-listing", "CompactionHandover::commit_batch adds labels found by listing the shard directory (%s) to the set it retires and reclaims: a segment directory a concurrent flush has written but not yet indexed is deleted, and the flush then publishes an index line without a directory" % sorted({c.nname.split("::")[-2] + "::" + c.nname.split("::")[-1] for c in listing}), sp(b, listing[0].bb)))
+        return bad
+    ctx.run("C11.k", "K7 PROV", "CompactionHandover::commit_batch", "a hand-over reclaims only what its own retirement drained", k_)
 
 
 def cmp_count(fam):
